@@ -117,6 +117,7 @@ type Ctx struct {
 	known      []Known
 	samples    []any
 	stats      map[string]int64
+	statm      sync.Map
 	notes      []string
 	assumps    []string
 	subspaces  []map[string]any
@@ -211,17 +212,27 @@ func (c *Ctx) State(n int64)     { c.states.Add(n) }
 func (c *Ctx) Validated(n int64) { c.traces.Add(n) }
 func (c *Ctx) Evals() int64      { return c.evals.Load() }
 
+func (c *Ctx) statCell(name string) *atomic.Int64 {
+	if v, ok := c.statm.Load(name); ok {
+		return v.(*atomic.Int64)
+	}
+	v, _ := c.statm.LoadOrStore(name, new(atomic.Int64))
+	return v.(*atomic.Int64)
+}
+
 func (c *Ctx) Stat(name string, n int64) {
-	c.mu.Lock()
-	c.stats[name] += n
-	c.mu.Unlock()
+	if n != 0 {
+		c.statCell(name).Add(n)
+	}
 }
 func (c *Ctx) StatMax(name string, n int64) {
-	c.mu.Lock()
-	if n > c.stats[name] {
-		c.stats[name] = n
+	cell := c.statCell(name)
+	for {
+		old := cell.Load()
+		if n <= old || cell.CompareAndSwap(old, n) {
+			return
+		}
 	}
-	c.mu.Unlock()
 }
 
 // Subspace records a completed (or capped) sub-space in the evidence.
@@ -307,6 +318,12 @@ func (c *Ctx) Par(n int, fn func(i int)) bool {
 // to confirm determinism, writes a replay file and records the violation.
 func Check[A any](c *Ctx, sub string, args A, fn func(a A) *Fail) bool {
 	c.evals.Add(1)
+	return Recheck(c, sub, args, fn)
+}
+
+// Recheck is Check without counting an evaluation (the caller already counted the case
+// when it ran the typed oracle directly).
+func Recheck[A any](c *Ctx, sub string, args A, fn func(a A) *Fail) bool {
 	f := Guard(func() *Fail { return fn(args) })
 	if f == nil {
 		return true
@@ -386,6 +403,10 @@ func (c *Ctx) Finish() int {
 			fmt.Printf("KNOWN-FINDING: property=%s %s (hits=%d)\n", c.ID, k.What, c.knownHits[i])
 		}
 	}
+	c.statm.Range(func(k, v any) bool {
+		c.stats[k.(string)] = v.(*atomic.Int64).Load()
+		return true
+	})
 	states := c.states.Load()
 	if states == 0 {
 		states = d
